@@ -86,6 +86,9 @@ func c08Cases(tier string, seed int64) []core.Case {
 	}
 	for _, mp := range []int{0, 4} {
 		mp := mp
+		if mp == 0 {
+			cases = append(cases, c08FsrvCases()...)
+		}
 		cases = append(cases, core.Case{ID: fmt.Sprintf("event-loop-answers/maxpend=%d", mp), Run: func(ctx *core.Ctx) core.Result { return c08EventLoop(ctx, mp) }})
 		cases = append(cases, core.Case{ID: fmt.Sprintf("tflush-as-group-member/maxpend=%d", mp), Run: func(ctx *core.Ctx) core.Result { return c08FlushAsMember(ctx, mp) }})
 	}
